@@ -101,15 +101,54 @@ fn root_bytes(root: &str) -> Option<Vec<u8>> {
 }
 
 /// Run all cells for one server certificate sequentially (so connections can be attributed).
-pub fn run_leaf(backend: &str, leaf: &'static str, hosts: &[&'static str], rt: &tokio::runtime::Runtime) -> Result<Vec<CellResult>, String> {
+/// Cell order inside one (server certificate, client) block. State leaking from one client to the
+/// next (a cached TLS configuration, say) only shows when a permissive configuration runs BEFORE a
+/// strict one, so order 0 puts the permissive cells first; order 1 is the plain order; other
+/// values derive a permutation from the number.
+pub fn cell_order(order: u64) -> Vec<(&'static str, &'static str)> {
+    let mut cells: Vec<(&'static str, &'static str)> = Vec::new();
+    match order {
+        0 => {
+            for flag in ["true", "unset", "false"] {
+                for root in ["issuing-ca-pem", "issuing-ca-der", "unrelated-ca", "none"] {
+                    cells.push((flag, root));
+                }
+            }
+        }
+        1 => {
+            for flag in FLAGS {
+                for root in ROOTS {
+                    cells.push((flag, root));
+                }
+            }
+        }
+        n => {
+            for flag in FLAGS {
+                for root in ROOTS {
+                    cells.push((flag, root));
+                }
+            }
+            let mut x = n | 1;
+            for i in (1..cells.len()).rev() {
+                x ^= x << 13;
+                x ^= x >> 7;
+                x ^= x << 17;
+                cells.swap(i, (x % (i as u64 + 1)) as usize);
+            }
+        }
+    }
+    cells
+}
+
+pub fn run_leaf(backend: &str, leaf: &'static str, hosts: &[&'static str], rt: &tokio::runtime::Runtime, order: u64) -> Result<Vec<CellResult>, String> {
     let d = fixtures_dir();
     let body = response_body();
     let server = Server::start(Arc::new(move |_r| Script::ok(body.clone())), Some(TlsIdentity { cert_pem_path: d.join(format!("{leaf}.pem")), key_pem_path: d.join(format!("{leaf}.key.pem")) })).map_err(|e| format!("tls server for {leaf}: {e}"))?;
     let mut out = Vec::new();
     for &host in hosts {
         for client in ["blocking", "async"] {
-            for flag in FLAGS {
-                for root in ROOTS {
+            for (flag, root) in cell_order(order) {
+                {
                     let cell = Cell { backend: backend.to_string(), client, flag, root, leaf, host };
                     let uri: Uri = format!("ipps://{host}:{}/ipp/print", server.port).parse().unwrap();
                     let before = server.conn_count();
@@ -179,7 +218,7 @@ pub fn run_leaf(backend: &str, leaf: &'static str, hosts: &[&'static str], rt: &
 }
 
 /// The whole matrix for this binary's TLS backend; leaves run in parallel.
-pub fn run_matrix(backend: &str, with_ip_target: bool) -> Result<Vec<CellResult>, String> {
+pub fn run_matrix(backend: &str, with_ip_target: bool, order: u64) -> Result<Vec<CellResult>, String> {
     let rt = tokio::runtime::Builder::new_multi_thread().worker_threads(2).enable_all().build().map_err(|e| format!("{e}"))?;
     let hosts: Vec<&'static str> = if with_ip_target { vec!["localhost", "127.0.0.1"] } else { vec!["localhost"] };
     let mut all = Vec::new();
@@ -188,7 +227,7 @@ pub fn run_matrix(backend: &str, with_ip_target: bool) -> Result<Vec<CellResult>
             .iter()
             .map(|leaf| {
                 let (rt, hosts) = (&rt, &hosts);
-                sc.spawn(move || run_leaf(backend, leaf, hosts, rt))
+                sc.spawn(move || run_leaf(backend, leaf, hosts, rt, order))
             })
             .collect();
         hs.into_iter().map(|h| h.join().unwrap_or_else(|_| Err("leaf thread panicked".into()))).collect()
@@ -211,7 +250,7 @@ pub fn replay_cell(backend: &str, v: &Value) -> Result<CellResult, String> {
     let want = (v.get("client").and_then(|s| s.as_str()).unwrap_or("").to_string(), v.get("flag").and_then(|s| s.as_str()).unwrap_or("").to_string(), v.get("root").and_then(|s| s.as_str()).unwrap_or("").to_string(), v.get("host").and_then(|s| s.as_str()).unwrap_or("localhost").to_string());
     let rt = tokio::runtime::Builder::new_multi_thread().worker_threads(2).enable_all().build().map_err(|e| format!("{e}"))?;
     let hosts: Vec<&'static str> = if want.3 == "127.0.0.1" { vec!["127.0.0.1"] } else { vec!["localhost"] };
-    for r in run_leaf(backend, leaf, &hosts, &rt)? {
+    for r in run_leaf(backend, leaf, &hosts, &rt, v.get("order").and_then(|o| o.as_u64()).unwrap_or(0))? {
         if r.cell.client == want.0 && r.cell.flag == want.1 && r.cell.root == want.2 {
             return Ok(r);
         }
